@@ -142,10 +142,10 @@ def addSimplicesFrom (s : HG) (fmt : Fmt) (items : List EdgeItem) (maxOrder : Op
     (addFaces r.1.1 r.1.2 h, r.2)
   match fmt, items with
   | .f1, it :: _ =>
-    -- format detection looks at the first simplex: empty -> IndexError; first member a string but not
-    -- all members strings -> "Members cannot be specified as a string"
+    -- format detection looks at the first simplex: first member a string but not all members strings ->
+    -- "Members cannot be specified as a string" (an empty first simplex is format 1 and is skipped)
     match it.members with
-    | [] => (s, .err .other)
+    | [] => go
     | m0 :: _ => if isStr m0 ∧ ¬ it.members.all isStr then (s, .err .lib) else go
   | _, _ => go
 
